@@ -250,6 +250,50 @@ def post_sampler(sess):
 POSTS = {'MACH_vmfault': post_vmfault, 'DBG_DYLD_TIMING_LAUNCH_EXECUTABLE': post_launch, 'PERF_Event': post_sampler}
 
 
+def verify_fault_records(run, tier, sess, tabs):
+    """the nested records a page-fault trace takes its pid and protection from: their own decoding against the kernel's
+    argument layout (XNU vm_fault: real address, (user_tag << 16) | (caller_prot << 8) | type, page offset, unique pid)"""
+    for name in sorted(n for n in tabs if n.startswith('RealFaultAddress')):
+        mod, h = tabs[name][0]
+        fq = 'pykdebugparser.trace_handlers.%s:handle_real_fault_address[%s]' % (mod, name)
+        try:
+            paths = decoders.explore_decoder(sess, name, h, render=False)
+        except Unsupported as ex:
+            run.add('C20/%s/supported' % name, 'unsupported', '', 0, fq, str(ex))
+            run.undecide('C20/%s/supported' % name, str(ex))
+            continue
+        agg = {}
+        for s in paths:
+            if s.outcome != "return" or not isinstance(s.result, Obj):
+                continue
+            f = s.result.fields
+            w = s.window
+            v = [z3.Select(w.v[j], 0) for j in range(4)]
+            want = {'vaddr': v[0], 'pid': v[3], 'offset': v[2], 'user_tag': v[1] / 65536}
+            for fld, t in want.items():
+                got = f.get(fld)
+                goal = (zi(got) == t) if is_intlike(got) else B(False)
+                vv = solve.prove(list(s.pc), goal, 10000, tier)
+                cur = agg.setdefault('C20/%s/field.%s' % (name, fld), {'status': 'proved', 'ms': 0.0, 'backend': vv.backend, 's': s})
+                cur['ms'] += vv.ms
+                if vv.status != 'proved' and cur['status'] == 'proved':
+                    cur.update(status='refuted' if vv.status == 'refuted' else 'unknown', detail=vv.detail, s=s)
+        if not agg:
+            run.engine_error('C20 %s: no returning path' % name)
+        for ob, cur in sorted(agg.items()):
+            if cur['status'] == 'proved':
+                run.add(ob, 'proved', cur['backend'], cur['ms'], fq)
+            elif cur['status'] == 'refuted':
+                run.add(ob, 'refuted', cur['backend'], cur['ms'], fq)
+                req = {'kind': 'fault_record_case', 'name': name}
+                out = native(req)
+                run.violation(ob, {'request': req, 'native': out, 'solver_output': 'sat'}, bool(out.get('violates')),
+                              what=out.get('what') or '%s does not take the field from the kernel\'s argument' % ob)
+            else:
+                run.add(ob, 'unknown', cur['backend'], cur['ms'], fq, cur.get('detail', ''))
+                run.undecide(ob, cur.get('detail', ''))
+
+
 def run_check(run, tier):
     sess = Session(policy=decoders.DecoderPolicy())
     tabs = decoders.handler_tables(sess)
@@ -259,6 +303,7 @@ def run_check(run, tier):
                         'condition; sorted(key=) is a stable ascending sort; chain.from_iterable concatenates in order',
                         'a nested record in the real-fault id range whose name has a decoder outside the fault-address '
                         'family is not followed (foreign object; attribute reads assumed to succeed)']
+    verify_fault_records(run, tier, sess, tabs)
     for name, mk in POSTS.items():
         fq = FQ[name]
         try:
